@@ -121,17 +121,15 @@ Definition ctor_move (this move : objid) : MB unit :=
 
 (* buffer(const char_T *data, size_t size) : m_size(size), m_data() ; data = None is nullptr *)
 Definition ctor_ptr (this : objid) (data : option (list N)) (size : nat) : MB unit :=
-  match data, size with
-  | None, S _ => mabort AbNullData
-  | _, _ =>
-      p <-- (if Nat.leb L size then new_arr (size + 1) else ret (PLocal this)) ;;
-      set_obj this (mkbuf p size zeros) ;;;
-      (match data with
-       | Some d => poke_range p d size
-       | None => ret tt
-       end) ;;;
-      poke p size 0%N
-  end.
+  if (match data with None => negb (Nat.eqb size 0) | Some _ => false end) then mabort AbNullData
+  else
+    p <-- (if Nat.leb L size then new_arr (size + 1) else ret (PLocal this)) ;;
+    set_obj this (mkbuf p size zeros) ;;;
+    (match data with
+     | Some d => poke_range p d size
+     | None => ret tt
+     end) ;;;
+    poke p size 0%N.
 
 (* buffer(size_t count, char_T fill) *)
 Definition ctor_fill (this : objid) (count : nat) (fill : N) : MB unit :=
